@@ -176,6 +176,20 @@ def collisions(rep) -> None:
             if len(mods) < items and not r["diags"]:
                 rep.violate(f"C07/two-into-one/same-class-name/{'equal' if sb is same or sb is None else 'different'}-content",
                             f"schemas {a!r} and {b!r} ({items} models) collapsed into {mods} without a diagnostic", doc=doc, modules=mods)
+        # a single-reference wrapper that ALSO declares something of its own (properties, required, additionalProperties): not a pure alias
+        for k, (label, extra) in enumerate([("properties", {"properties": {"own": {"type": "string"}}}), ("required", {"required": ["b"]}),
+                                            ("typed-additional-properties", {"additionalProperties": {"type": "integer"}})]):
+            doc = gen.mkdoc(schemas={"Base": {"type": "object", "properties": {"a": {"type": "string"}, "b": {"type": "string"}}},
+                                     "W": dict({"allOf": [{"$ref": "#/components/schemas/Base"}]}, **extra),
+                                     "User": {"type": "object", "properties": {"w": {"$ref": "#/components/schemas/W"}}}})
+            r = gen.generate(doc, d / f"w{k}")
+            snap = gen.snapshot(d / f"w{k}", content=True)
+            rep.count(1, ("wrapper-with-own", label))
+            wmod = snap.get("models/w.py")
+            kept = wmod is not None and {"properties": b"own", "required": b"b: str\n", "typed-additional-properties": b"dict[str, int]"}[label] in wmod
+            if not kept and not any("W" in (x["header"] + x["detail"]) for x in r["diags"]):
+                rep.violate(f"C07/wrapper-own-keywords-dropped/{label}", f"a schema that wraps one reference and declares its own {label} is treated as a pure alias: its {label} are dropped, no diagnostic",
+                            doc=doc)
         # two component enums with the same derived class name and equal values are folded by design
         doc = gen.mkdoc(schemas={"my_enum": {"type": "string", "enum": ["a", "b"]}, "MyEnum": {"type": "string", "enum": ["a", "b"]}})
         r = gen.generate(doc, d / "e")
